@@ -56,20 +56,20 @@ def cases(tier, seed):
     big = tier == "thorough"
     for w in WITNESSES:
         yield {"kind": "witness", "name": w}
-    for k in range(12000 if big else 200):
+    for k in range(12000 if big else 2400):
         yield {"kind": "otfad_low", "k": k}
-    for k in range(9000 if big else 150):
+    for k in range(9000 if big else 1800):
         yield {"kind": "iee_low", "k": k}
-    for k in range(12000 if big else 200):
+    for k in range(12000 if big else 2400):
         yield {"kind": "bee_low", "k": k}
     yield {"kind": "families"}
     for k in range(12 if big else 2):
         for i in range(40):  # family index modulo the family list of the database under test
             yield {"kind": "otfad_cfg", "fam": i, "k": k}
             yield {"kind": "iee_cfg", "fam": i, "k": k}
-    for k in range(1500 if big else 36):
+    for k in range(1500 if big else 120):
         yield {"kind": "bee_cfg", "k": k}
-    for k in range(60 if big else 5):
+    for k in range(60 if big else 10):
         yield {"kind": "otfad_cli", "k": k}
         yield {"kind": "iee_cli", "k": k}
         yield {"kind": "bee_cli", "k": k}
